@@ -19,7 +19,7 @@ META = {
                  "correspondence batches (coordinates of all live objects and buffer-identity classes after every step)",
     "level_text": "Machine-checked Coq theorems about an executable heap model of mesh.py (copy, merge, from_arrays), "
                   "transform.py, rings.py, _prepare_vertices and Vec(x), for every operation history and over every "
-                  "(ordered) field of coordinates, after fifteen fix: commits: a copy equals its source, uses fresh buffers and "
+                  "(ordered) field of coordinates, after sixteen fix: commits: a copy equals its source, uses fresh buffers and "
                   "stays isolated from it under any later history of writes; merge concatenates the vertices, shifts the "
                   "indices of input k by the running vertex count, takes the largest dimensionality and uses fresh, pairwise "
                   "distinct buffers even when one mesh is merged twice; 'no two vertex ids share a buffer' is an invariant of "
